@@ -234,6 +234,23 @@ Record cfg := mkCfg { c_scanner : scanner; c_v11 : bool }.
 (** raw attribute as rawAttrScan delivers it: the QName split at its colon (fRawAttrColonList; no colon = empty
     prefix) and the value *)
 Record rattr := mkRAttr { ra_pfx : name; ra_loc : name; ra_val : name }.
+(** [ra_val] is the RAW value as rawAttrScan leaves it: a character that came from a character reference or a predefined
+    entity is preceded by the escape mark 0xFFFF, literal white space is still TAB / LF.
+    normalizeAttRawValue (IGXMLScanner2.cpp / SGXMLScanner.cpp; WFXMLScanner::scanAttValue and DGXMLScanner::scanAttValue
+    do the same while scanning): drop the mark and keep the escaped character, turn unescaped white space into a space.
+    updateNSMap binds the prefix to THIS value, and the attribute is reported with it. *)
+Definition esc_mark : N := 65535%N.
+Fixpoint norm_raw (v : name) : name :=
+  match v with
+  | [] => []
+  | c :: r =>
+    if N.eqb c esc_mark then match r with [] => [] | d :: r' => d :: norm_raw r' end
+    else (if is_ws c then 32%N else c) :: norm_raw r
+  end.
+Definition ra_nval (a : rattr) : name := norm_raw (ra_val a).
+(** the raw buffer of a value written as [l] *)
+Definition raw_of (l : list avitem) : name :=
+  flat_map (fun i => match i with AvLit c => [c] | AvRef c => [esc_mark; c] end) l.
 Definition qname_of (pfx loc : name) : name := match pfx with [] => loc | _ => pfx ++ [58%N] ++ loc end.
 
 Inductive tok :=
@@ -316,8 +333,8 @@ Definition nsmap_check (v11 colon : bool) (prefPtr v : name) : res unit xerr :=
 Definition updateNSMap (c : cfg) (s : scan) (a : rattr) : res scan xerr :=
   let colon := match ra_pfx a with [] => false | _ => true end in
   let prefPtr := if colon then ra_loc a else [] in
-  do _ <- nsmap_check (c_v11 c) colon prefPtr (ra_val a);
-  st_addPrefix c s prefPtr (ra_val a).
+  do _ <- nsmap_check (c_v11 c) colon prefPtr (ra_nval a);
+  st_addPrefix c s prefPtr (ra_nval a).
 
 (** the test of scanRawAttrListforNameSpaces: the raw name starts with "xmlns:" or is "xmlns" *)
 Definition is_nsdecl (a : rattr) : bool :=
@@ -347,7 +364,7 @@ Fixpoint buildAttList (c : cfg) (s : scan) (attrs : list rattr) (done : list xat
     if existsb (fun x => name_eqb (qname_of (xa_pfx x) (xa_loc x)) (qname_of (ra_pfx a) (ra_loc a))) done
     then Err E_AttrAlreadyUsedInSTag
     else if existsb (same_expanded uri (ra_loc a)) done then Err E_AttrAlreadyUsedInSTag
-    else buildAttList c s r (mkXAttr uri (ra_pfx a) (ra_loc a) (ra_val a) :: done)
+    else buildAttList c s r (mkXAttr uri (ra_pfx a) (ra_loc a) (ra_nval a) :: done)
   end.
 
 Definition ig_startTag (c : cfg) (s : scan) (pfx loc : name) (attrs : list rattr) : res (scan * nat * list xattr) xerr :=
@@ -376,7 +393,7 @@ Fixpoint faultIn (c : cfg) (s : scan) (attrs defs : list rattr) : res (list xatt
     if provided attrs d then faultIn c s attrs r
     else do u <- resolvePrefix c s (ra_pfx d) true;
          do xs <- faultIn c s attrs r;
-         Ok (mkXAttr u (ra_pfx d) (ra_loc d) (ra_val d) :: xs)
+         Ok (mkXAttr u (ra_pfx d) (ra_loc d) (ra_nval d) :: xs)
   end.
 Definition ig_startTagD (c : cfg) (s : scan) (pfx loc : name) (attrs defs : list rattr)
   : res (scan * nat * list xattr) xerr :=
@@ -397,7 +414,7 @@ Fixpoint wf_scanAttrs (c : cfg) (s : scan) (attrs : list rattr) (done : list (op
     if existsb (fun x => name_eqb (qname_of (ra_pfx (snd x)) (ra_loc (snd x))) (qname_of (ra_pfx a) (ra_loc a))) done
     then Err E_AttrAlreadyUsedInSTag
     else
-      let v := ra_val a in
+      let v := ra_nval a in
       match ra_pfx a with
       | [] =>
         if name_eqb (ra_loc a) s_xmlns then
@@ -427,10 +444,10 @@ Fixpoint wf_scanAttrs (c : cfg) (s : scan) (attrs : list rattr) (done : list (op
 Fixpoint wf_resolveDeferred (c : cfg) (s : scan) (l : list (option nat * rattr)) : res (list xattr) xerr :=
   match l with
   | [] => Ok []
-  | (Some u, a) :: r => do xs <- wf_resolveDeferred c s r; Ok (mkXAttr u (ra_pfx a) (ra_loc a) (ra_val a) :: xs)
+  | (Some u, a) :: r => do xs <- wf_resolveDeferred c s r; Ok (mkXAttr u (ra_pfx a) (ra_loc a) (ra_nval a) :: xs)
   | (None, a) :: r =>
     do u <- resolvePrefix c s (ra_pfx a) true;
-    do xs <- wf_resolveDeferred c s r; Ok (mkXAttr u (ra_pfx a) (ra_loc a) (ra_val a) :: xs)
+    do xs <- wf_resolveDeferred c s r; Ok (mkXAttr u (ra_pfx a) (ra_loc a) (ra_nval a) :: xs)
   end.
 (** the duplicate check after the tag: all pairs below the threshold; above it every attribute is looked up in the
     registry of the earlier ones (fixes/C06-wf-dup-last.patch: the last attribute included) *)
@@ -767,7 +784,7 @@ Definition dom_nodes (roots : list dnode) : list (nkind * list belem) := flat_ma
 
 (** ** vocabulary of the theorems that relate the scanner model to the Spec *)
 Definition nonwf (c : cfg) : Prop := match c_scanner c with WF => False | _ => True end.
-Definition sp_of (a : rattr) : sp_attr := mkSpAttr (ra_pfx a) (ra_loc a) (ra_val a).
+Definition sp_of (a : rattr) : sp_attr := mkSpAttr (ra_pfx a) (ra_loc a) (ra_nval a).
 Definition ns_error (e : xerr) : bool :=
   match e with E_StackUnderflow | E_EmptyStack | E_Fault => false | _ => true end.
 (** the id [u] (of the URI pool) denotes the namespace the Spec assigns *)
